@@ -1,6 +1,6 @@
 (* Properties_C08.v — C08: what the terminal state reports as known is true of
    the real terminal. *)
-From TP Require Import Base Elem Term VT Oracle P_Sync P_Step P_Bytes P_Run Tie_Output Tie_Charset.
+From TP Require Import Base Elem Term VT Oracle P_Sync P_Step P_Bytes P_Run P_Link Tie_Output Tie_Charset.
 Local Open Scope N_scope.
 
 (* After every well-formed history, from every initial terminal at rest, under
@@ -67,3 +67,16 @@ Print Assumptions C08_forgets_unsaved_restore.
 Theorem C08_save_copies_belief :
   forall beh st, ts_saved (fst (step beh st Save)) = ts_cur st.
 Proof. reflexivity. Qed.
+
+(* the decidable clause (code 801) that the extracted oracle evaluates on the
+   IMPLEMENTATION's reported state and real bytes is exactly this theorem's
+   statement: on the model's own observations it never fires, after any history *)
+Theorem C08_oracle_clause_801 :
+  forall cfg beh, (b_unicode_all beh = true -> unicode_all cfg = true) ->
+  forall v0 h, vt0_ok v0 -> wf_hist beh init_tstate h ->
+    truthful beh (fst (hrun cfg beh init_tstate v0 h)) (snd (hrun cfg beh init_tstate v0 h)) = true.
+Proof.
+  intros cfg beh Huni v0 h H0 Hwf. apply sync_truthful.
+  exact (proj1 (sync_hrun cfg beh Huni h init_tstate v0 (sync_init beh v0 H0) Hwf)).
+Qed.
+Print Assumptions C08_oracle_clause_801.
